@@ -67,13 +67,14 @@ var c05Model = porcupine.Model{
 }
 
 type c05Run struct {
-	mu      sync.Mutex
-	ops     []porcupine.Operation
-	execCnt map[[2]int]int
-	badTid  int
-	loopTid int
-	t0      time.Time
-	total   int64
+	mu        sync.Mutex
+	ops       []porcupine.Operation
+	execCnt   map[[2]int]int
+	badTid    int
+	loopTid   int
+	t0        time.Time
+	total     int64
+	nestedIDs int64
 }
 
 func (x *c05Run) now() int64 { return int64(time.Since(x.t0)) }
@@ -93,7 +94,7 @@ func (x *c05Run) handler(poster, id int, nest int, ioc *sonic.IO, nested *int64)
 		if nest > 0 {
 			// Post from inside a posted handler (the poster identity of nested posts is the handler chain)
 			atomic.AddInt64(nested, 1)
-			np := 100000 + poster*1000 + id*10 + nest
+			np := 1000000 + int(atomic.AddInt64(&x.nestedIDs, 1)) // a unique poster identity per nested chain link
 			x.post(ioc, np, 0, nest-1, nested)
 		}
 	}
@@ -116,7 +117,7 @@ func runC05(c *vf.Case) {
 	r := c.Rng
 	runtime.LockOSThread()
 	defer runtime.UnlockOSThread()
-	mode := c.Index % 6
+	mode := c.Index % 7
 	w, err := sim.NewWorld(c)
 	if err != nil {
 		c.Failf("harness-setup", "NewWorld: %v", err)
@@ -185,11 +186,43 @@ func runC05(c *vf.Case) {
 			})
 		}
 		c.Count("wake_probes", rounds)
+	case 2: // burst wake probe: the loop sleeps in RunOne(); several goroutines post at the same instant
+		K := r.Range(2, 4)
+		rounds := 1500
+		c.Logf("burst wake probe: %d rounds of %d simultaneous posts against a loop blocked in RunOne", rounds, K)
+		start := make([]chan int, K)
+		for k := range start {
+			start[k] = make(chan int, 1)
+			go func(k int) {
+				for round := range start[k] {
+					x.post(ioc, 20+k, round, 0, &nested)
+				}
+			}(k)
+		}
+		stuck := -1
+		c.Bounded("post-does-not-wake-blocked-loop", 60*time.Second, func() {
+			for round := 0; round < rounds; round++ {
+				want := atomic.LoadInt64(&x.total) + int64(K)
+				for k := range start {
+					start[k] <- round
+				}
+				stuck = round
+				for atomic.LoadInt64(&x.total) < want {
+					_ = ioc.RunOne()
+				}
+			}
+			stuck = -1
+		})
+		_ = stuck
+		for k := range start {
+			close(start[k])
+		}
+		c.Count("burst_wake_rounds", rounds)
 	default: // concurrent posters while the loop polls, arms/cancels timers and starts/cancels reads
 		P := []int{1, 4, 16}[r.Intn(3)]
-		N := r.Range(20, 300)
+		N := r.Range(200, 2500)
 		if c.Tier == "thorough" && c.Build != "race" {
-			N = r.Range(200, 3000)
+			N = r.Range(2000, 20000)
 		}
 		loopMode := r.Intn(3)
 		c.Logf("%d posters x %d posts, loop mode %d, nested every 16th", P, N, loopMode)
@@ -333,7 +366,7 @@ func init() {
 	register(&vf.Check{
 		ID:        "C05",
 		Technique: "race detector (-race build) over a concurrent Post workload + offline checkers over the recorded event log (exactly-once, thread identity, per-poster FIFO linearizability with porcupine) + bounded-progress probes (nested Post, wake-up) + delay injection at poller verifPoints",
-		Rule: "cases = rounds of {1,4,16} poster goroutines x 20-300 (thorough: up to 3000) posts, every 16th handler posting again, while the locked loop goroutine cycles PollOne/RunOneFor and arms/cancels a timer and starts/cancels a socket read (same counters); nested-Post probes (depth 1-3); wake probes (loop blocked in RunOne, Post from another goroutine); PRNG-driven yields/spins at the verifPoints post:after-append, poll:after-wait, poll:batch-entry, dispatch:before-lock in two thirds of the rounds; " +
+		Rule: "cases = rounds of {1,4,16} poster goroutines x 20-300 (thorough: up to 3000) posts, every 16th handler posting again, while the locked loop goroutine cycles PollOne/RunOneFor and arms/cancels a timer and starts/cancels a socket read (same counters); nested-Post probes (depth 1-3); wake probes (loop blocked in RunOne, Post from another goroutine); burst wake probes (1500 rounds of 2-4 simultaneous posts against a loop blocked in RunOne); PRNG-driven yields/spins at the verifPoints post:after-append, poll:after-wait, poll:batch-entry, dispatch:before-lock, dispatch:after-swap in two thirds of the rounds; " +
 			"every round is non-trivial; distinct = (mode, number of posts, delay points hit)",
 		Assumptions: []string{
 			"Posted()/Pending() are compared only at quiescence",
@@ -349,9 +382,9 @@ func init() {
 		},
 		NumCases: func(tier, build string) int {
 			if tier == "thorough" {
-				return 600
+				return 630
 			}
-			return 36
+			return 42
 		},
 		Shards: func(tier, build string) int { return 6 },
 		Floor:  func(tier string) int { return vf.Tiered(tier, 10, 100) },
